@@ -24,9 +24,12 @@ RULE = ("planner geometries: rank 1-3; 'small' = extents 1..12 (thorough: 1-D bo
         "sc,tc<=n, itemsize {1,8}, 5 max_mem and 4 min_mem settings), 'large' = extents/chunks log-uniform up to 2^40 "
         "with max_mem up to 2^50 (tight = exactly the larger chunk, loose, below = rejected), min_mem in {0, itemsize, "
         "max_mem//20, log-uniform, > max_mem}; chunks >= 1, itemsize in {1,2,4,8,16}; both planners on every case; "
+        "a third of the planner / rechunk_plan / end-to-end cases are 'shrinking-axis' geometries (large source chunk that neither spans nor "
+        "divides, tight budget, default min_mem: ~45% give >= 2 regular stages whose first copy must be re-aligned by _fix_copy_chunks) "
+        "plus a fixed corpus of such geometries; "
         "rechunk_plan on lazily built arrays (<= 4096 blocks per axis) incl. a cloud work_dir (7 copies); "
         "non-trivial = source != target chunks and the planner accepted; distinct by request text; "
-        "end-to-end: arrays of <= 600 elements, allowed_mem chosen so that the default or explicit min_mem forces >= 2 stages")
+        "end-to-end: arrays of <= 4000 elements (+ one 123k-element corpus case), allowed_mem chosen so that the default or explicit min_mem forces >= 2 stages")
 ASSUMPTIONS = [
     "hypothesis DivOK (float quotient of max_mem / chunk_mem: (f > 1) implies chunk_mem <= max_mem; chunk_mem <= max_mem implies f >= 1 "
     "and int(f) >= 1; int(f) * chunk_mem <= max_mem) — validated on every recorded division (holds for correctly rounded "
@@ -153,6 +156,10 @@ def stage_invariant_failures(kind, shape, src, tgt, itemsize, min_mem, max_mem, 
         if k + 1 < len(stages) and stages[k + 1][0] != w:
             bad.append("stage %d writes %r but stage %d reads %r" % (k, w, k + 1, stages[k + 1][0]))
         if kind == "reg":
+            for ax, (n, rv, iv) in enumerate(zip(shape, r, i)):
+                if iv < 1 or not (rv % iv == 0 or rv == n):
+                    bad.append("regular stage %d axis %d: copy chunk %d is not a multiple of the chunk it writes (%d) and does not span %d"
+                               % (k, ax, rv, iv, n))
             for ax, (n, rv, wv) in enumerate(zip(shape, r, w)):
                 if not (rv <= wv or rv % wv == 0 or rv == n):
                     bad.append("regular stage %d axis %d: copy chunk %d neither multiple of written chunk %d nor spanning %d" % (k, ax, rv, wv, n))
@@ -231,6 +238,78 @@ def gen_large(rng):
             tgt = [min(n, max(1, t * logint(rng, 4))) for n, t in zip(shape, tgt)]
     itemsize = rng.choice(ITEMSIZES)
     return finish_case(rng, shape, src, tgt, itemsize, 2 ** 50)
+
+
+def logint2(rng, lo, hi):
+    return max(lo, min(hi, int(round(math.exp(rng.uniform(math.log(lo), math.log(hi)))))))
+
+
+def gen_shrink(rng, hi=None):
+    """Geometries that need a multi-stage plan whose first stage *shrinks* an axis on which the (consolidated)
+    source chunk neither spans the axis nor is a round multiple, with a tight budget: here `_fix_copy_chunks`
+    really has to round the read chunks down to the chunks of the *following* stage (about 45% of these give
+    >= 2 regular stages)."""
+    nd = rng.choice([2, 2, 2, 3])
+    hi = hi or (40000 if rng.random() < 0.5 else 2000)
+    shape = [logint2(rng, 30, hi) for _ in range(nd)]
+    a, b = rng.sample(range(nd), 2)
+    src, tgt = [], []
+    for i, n in enumerate(shape):
+        if i == a:      # shrinking axis: large source chunk, not spanning, no round multiple
+            sc = rng.randint(max(2, n // 4), n - 1)
+            tc = rng.randint(1, max(1, sc // 6))
+        elif i == b:    # growing axis
+            sc = rng.randint(1, max(1, n // 12))
+            tc = rng.randint(min(n, sc * 3), n)
+        else:
+            sc = rng.randint(1, n)
+            tc = sc if rng.random() < 0.5 else rng.randint(1, n)
+        src.append(sc); tgt.append(tc)
+    itemsize = rng.choice([1, 2, 4, 8])
+    need = itemsize * max(prod(src), prod(tgt))
+    max_mem = need if rng.random() < 0.5 else need + rng.randint(0, need // 2)
+    one = itemsize * prod([min(x, y) for x, y in zip(src, tgt)])
+    r = rng.random()
+    if r < 0.5:
+        min_mem = max_mem // 20
+    elif r < 0.8 and one + 1 < max_mem // 3:
+        min_mem = rng.randint(one + 1, max_mem // 3)
+    else:
+        min_mem = max_mem // rng.choice([5, 10, 40])
+    return dict(shape=shape, src=src, tgt=tgt, itemsize=itemsize, min_mem=min_mem, max_mem=max_mem)
+
+
+# fixed corpus (always run): multi-stage regular plans whose first copy has to be re-aligned with the first
+# intermediate chunks (from /verif/seeded/C14-1) — (shape, src, tgt, itemsize, allowed_mem)
+CORPUS_RPLAN = [
+    ((198, 622), (115, 33), (8, 407), 4, 121440),
+    ((300, 1441), (203, 117), (15, 280), 4, 760032),
+    ((1285, 347), (363, 29), (20, 189), 4, 252648),
+    ((1329, 1436), (63, 874), (1210, 10), 4, 1321488),
+    ((60, 60), (26, 1), (1, 60), 8, 3000),
+]
+CORPUS_PLAN = [
+    dict(shape=[1128, 481], src=[835, 19], tgt=[14, 213], itemsize=4, min_mem=3173, max_mem=63460),
+    dict(shape=[300, 1441], src=[203, 117], tgt=[15, 280], itemsize=4, min_mem=7600, max_mem=152006),
+    dict(shape=[60, 60], src=[26, 1], tgt=[1, 60], itemsize=8, min_mem=30, max_mem=600),
+]
+
+
+def corpus_rplan_cases():
+    out = []
+    for shape, src, tgt, itemsize, allowed in CORPUS_RPLAN:
+        for irregular in (False, True):
+            out.append(dict(shape=list(shape), src=list(src), tgt=list(tgt), itemsize=itemsize, allowed=allowed, reserved=0,
+                            cloud=False, min_mem=None, irregular=irregular))
+    return out
+
+
+def gen_rplan_shrink(rng):
+    c = gen_shrink(rng, hi=3000)
+    copies = 5
+    allowed = c["max_mem"] * copies + rng.randint(0, copies - 1)
+    return dict(shape=c["shape"], src=c["src"], tgt=c["tgt"], itemsize=c["itemsize"], allowed=allowed, reserved=0, cloud=False,
+                min_mem=None if rng.random() < 0.6 else c["min_mem"], irregular=rng.random() < 0.25)
 
 
 def finish_case(rng, shape, src, tgt, itemsize, cap):
@@ -381,8 +460,10 @@ def planner_cases(ctx, n_small, n_large):
         cases += list(enum_1d())
         ctx.exhaustive = True
         ctx.notes.append("exhaustive: 1-D planner box n<=9 (enum_1d) and split_chunksizes n<15, sc,tc<=16")
+    cases += [dict(c) for c in CORPUS_PLAN]
     cases += [gen_small(rng) for _ in range(n_small)]
     cases += [gen_large(rng) for _ in range(n_large)]
+    cases += [gen_shrink(rng) for _ in range((n_small + n_large) // 3)]
     return cases
 
 
@@ -526,8 +607,8 @@ def ops_invariant_failures(c, ops, src, tgt, rec):
 
 def corr_rplan(ctx, n):
     reqs, exp, meta = [], [], []
-    for _ in range(n):
-        c = gen_rplan(ctx.rng)
+    cases = corpus_rplan_cases() + [gen_rplan(ctx.rng) if k % 3 else gen_rplan_shrink(ctx.rng) for k in range(n)]
+    for c in cases:
         ans, ops, rec, req, src, tgt = real_rechunk_plan(c)
         for h in hyp_failures(rec):
             ctx.disagree("hypothesis " + h.split(":")[0], c, "assumed", h)
@@ -589,6 +670,23 @@ def gen_e2e(rng):
     return dict(shape=shape, src=src, tgt=tgt, itemsize=itemsize, allowed=allowed, min_mem=min_mem, irregular=rng.random() < 0.5)
 
 
+def gen_e2e_shrink(rng):
+    n0, n1 = rng.randint(20, 64), rng.randint(12, 60)
+    sc0 = rng.randint(max(2, n0 // 3), n0 - 1)
+    itemsize = rng.choice([1, 2, 4, 8])
+    src, tgt = [sc0, rng.randint(1, 2)], [rng.randint(1, max(1, sc0 // 8)), rng.randint(n1 // 2, n1)]
+    need = itemsize * max(prod(src), prod(tgt))
+    allowed = (need + rng.randint(0, need // 4)) * 5
+    return dict(shape=[n0, n1], src=src, tgt=tgt, itemsize=itemsize, allowed=allowed, min_mem=None, irregular=rng.random() < 0.2)
+
+
+E2E_CORPUS = [
+    dict(shape=[60, 60], src=[26, 1], tgt=[1, 60], itemsize=8, allowed=3000, min_mem=None, irregular=False),
+    dict(shape=[60, 60], src=[26, 1], tgt=[1, 60], itemsize=8, allowed=3000, min_mem=None, irregular=True),
+    dict(shape=[198, 622], src=[115, 33], tgt=[8, 407], itemsize=4, allowed=121440, min_mem=None, irregular=False),
+]
+
+
 def e2e(ctx, n):
     import warnings
 
@@ -599,11 +697,11 @@ def e2e(ctx, n):
     import cubed.array_api as xp
     from cubed.utils import normalize_chunks
     R = mods()[1]
-    for _ in range(n):
-        c = gen_e2e(ctx.rng)
+    cases = [dict(c) for c in E2E_CORPUS] + [gen_e2e(ctx.rng) if k % 3 else gen_e2e_shrink(ctx.rng) for k in range(n)]
+    for c in cases:
         shape = tuple(c["shape"])
         dt = {1: "int8", 2: "int16", 4: "int32", 8: "int64"}[c["itemsize"]]
-        an = (np.arange(prod(shape)) % 120).astype(dt).reshape(shape)
+        an = (np.arange(prod(shape)) % 113).astype(dt).reshape(shape)
         spec = cubed.Spec(allowed_mem=c["allowed"], reserved_mem=0)
         nops = None
         try:
@@ -632,8 +730,11 @@ def e2e(ctx, n):
 def oracle_planners(ctx, n):
     """stage invariants on real planner output for fresh geometries, no Lean involved."""
     A = mods()[0]
+    cases = [dict(c) for c in CORPUS_PLAN]
     for _ in range(n):
-        c = (gen_small if ctx.rng.random() < 0.4 else gen_large)(ctx.rng)
+        r = ctx.rng.random()
+        cases.append((gen_small if r < 0.25 else gen_large if r < 0.6 else gen_shrink)(ctx.rng))
+    for c in cases:
         for kind in ("irr", "reg"):
             ans, stages, rec, reg = run_planner(kind, c["shape"], c["src"], c["tgt"], c["itemsize"], c["min_mem"], c["max_mem"])
             case = dict(c, planner=kind)
@@ -647,8 +748,8 @@ def oracle_planners(ctx, n):
 
 
 def oracle_rplan(ctx, n):
-    for _ in range(n):
-        c = gen_rplan(ctx.rng)
+    cases = corpus_rplan_cases() + [gen_rplan(ctx.rng) if k % 2 else gen_rplan_shrink(ctx.rng) for k in range(n)]
+    for c in cases:
         ans, ops, rec, req, src, tgt = real_rechunk_plan(c)
         ctx.count({"oracle_rplan": c}, nontrivial=bool(ops), kind="oracle:rplan")
         if ops is None:
